@@ -136,7 +136,7 @@ func ListenUDP(network string, laddr *net.UDPAddr) (*UDPConn, error) {
 			}
 		}
 	}
-	a := &net.UDPAddr{IP: ip, Port: port}
+	a := &net.UDPAddr{IP: ip, Port: port, Zone: laddr.Zone}
 	key := a.String()
 	if _, used := k.socks[key]; used {
 		return nil, &net.OpError{Op: "listen", Net: network, Addr: a, Err: errInUse}
